@@ -13,6 +13,11 @@ Stream `onto-existing`: tracked files are materialised ONTO entries that are alr
 recorded paths whose ignore line is gone, untracked paths) by copy --force / recheck --force / bring --force, file and directory
 destinations, every recheck method: the ignore operation must not depend on what was at the path (Props/C16.lean
 `C16_ignore_op_independent_of_prior_entry`, translator guard `destAbsent` in Gen/IgnoreSends.lean).
+Stream `batch-prefix`: ONE command materialises SEVERAL files (glob copied to a directory, recheck / bring after the user lost a
+directory and other files), some into directories it has to create and others into directories that are there, the names of the
+new directories being prefixes of other destinations' names (dir `m` next to `m.bin`, `data` next to `data2/`): a queued file may be
+left without a line only inside a directory the same batch ignored, COMPONENT-wise (Props/C16.lean
+`C16_batch_file_rule_dropped_only_inside_ignored_dir`, translator `HANDLER_FILE_FILTER` in Gen/IgnoreSends.lean).
 
 The Lean model mirrors the code WITH patches/C09-F8.patch and patches/C16-newline.patch.
 """
@@ -323,7 +328,7 @@ def with_contents(ents, contents):
 # ---------------------------------------------------------------------------------------------
 # histories: xvc commands and, between them, what a user does to the workspace
 
-USER_STEPS = ('u-rm-gitignore', 'u-regen-dir', 'u-del-line', 'u-modify', 'u-pad', 'u-put')
+USER_STEPS = ('u-rm-gitignore', 'u-regen-dir', 'u-del-line', 'u-modify', 'u-pad', 'u-put', 'u-rm')
 FAULT_STEPS = ('fault-fsize', 'fault-kill')
 
 
@@ -359,6 +364,8 @@ def step_text(c):
     if k in ('copy', 'move'): return f'xvc file {k} ' + ' '.join(list(c[3]) if len(c) > 3 else []) + (' ' if len(c) > 3 and c[3] else '') + f'{c[1]} {c[2]}'
     if k == 'send-rm-bring': return f'xvc file send -s s (everything tracked below {os.path.dirname(c[1])}/); rm -rf {os.path.dirname(c[1])} and the cache; xvc file bring -s s (the same)'
     if k == 'u-rm-gitignore': return f'user: rm {c[1]}/{GI}'
+    if k == 'u-rm': return 'user: rm -rf ' + ' '.join(c[1])
+    if k == 'copy-many': return 'xvc file copy ' + ' '.join(list(c[3]) + [''] if len(c) > 3 and c[3] else []) + f"'{c[1]}' {c[2]}"
     if k == 'u-regen-dir': return f'user: rm -rf {c[1]}; regenerate the files below {c[1]}/ with identical content (no {GI})'
     if k == 'u-del-line': return f'user: delete the line {c[2]!r} from {c[1] or "."}/{GI}'
     if k == 'u-modify': return f'user: change the content of {c[1]}'
@@ -416,6 +423,16 @@ def user_step(sb, st, c, protected):
             os.symlink(sb.path('notes.txt'), p)
         else:
             os.symlink('/nonexistent/target-of-' + os.path.basename(c[1]), p)
+    elif k == 'u-rm':
+        # the user removes files / whole directories (with the .gitignore files inside them)
+        for q in c[1]:
+            ap = sb.path(q)
+            if os.path.isdir(ap) and not os.path.islink(ap):
+                for dp, dn, fn in os.walk(ap):
+                    os.chmod(dp, 0o755)
+                shutil.rmtree(ap, ignore_errors=True)
+            elif os.path.lexists(ap):
+                os.unlink(ap)
     elif k == 'u-modify':
         f = c[1]
         if os.path.lexists(sb.path(f)):
@@ -832,6 +849,25 @@ def scenario(chk, pr, xvc, idx, rng, forced=None):
                     else:
                         exp = model_after(pr, 'ghandler', ents, [parent] if missing else [], [dst])
                     named = {dst}
+            elif c[0] == 'copy-many':
+                # ONE command materialises SEVERAL files: glob source `S/**`, directory destination `out/` (paths `out/<source path>`);
+                # some land in directories the command has to create (IgnoreDir), others in directories that are there
+                pat, dstdir = c[1], c[2]
+                mopts = list(c[3]) if len(c) > 3 else []
+                chk.count('command:copy-many' + (':' + '='.join(mopts) if mopts else ''))
+                srcs = sorted(f for f in rec if f.startswith(pat[:-2]) and (rec.get(f), ext_of(f)) in cache)
+                dsts = {s_: dstdir + s_ for s_ in srcs}
+                made = sorted({os.path.dirname(d_) for d_ in dsts.values() if not os.path.isdir(sb.path(os.path.dirname(d_)))})
+                chk.count(f'batch:copy-many:files={len(dsts)}:created-dirs={len(made)}')
+                rc, out, err = X('file', 'copy', *mopts, pat, dstdir)
+                if rc == 0:
+                    for s_, d_ in dsts.items():
+                        if d_ not in files: files.append(d_)
+                        content[d_] = rec[s_]; rec[d_] = rec[s_]; cache.add((rec[s_], ext_of(d_)))
+                    # with several missing parents the order of the IgnoreDir operations depends on the worker threads
+                    if len(made) <= 1:
+                        exp = model_after(pr, 'ghandler', with_parents(ents, sorted(dsts.values())), made, sorted(dsts.values()))
+                    named = {d_ for d_ in dsts.values() if os.path.lexists(sb.path(d_))}
             else:
                 raise ValueError(f'unknown step {c!r}')
             if fault:
@@ -1144,6 +1180,71 @@ def gen_onto_spec(rng, chk, k):
     return {'files': files, 'gitignores': {'': '*.log\n'} if rng.random() < 0.3 else {}, 'algorithm': algo, 'commands': cmds}
 
 
+# seeded defect C16-6 (the handler drops every queued file whose path STRING starts with the text of a directory it just ignored):
+# ONE command materialises SEVERAL files, some into directories it has to create and others into directories that are there, and the
+# names of the new directories are PREFIXES of other destinations' names (dir `m` next to file `m.bin`, `data` next to `data2/`)
+BATCH_CORPUS = [
+    {'files': ['src/m/x.bin', 'src/m.bin', 'src/n.bin', 'out/src/keep.txt'], 'gitignores': {},
+     'commands': [('track', ['src/m/x.bin', 'src/m.bin', 'src/n.bin'], []), ('copy-many', 'src/**', 'out/')]},
+    {'files': ['ds/data/a.dat', 'ds/data2/b.dat', 'ds/other.dat'], 'gitignores': {'': '*.log\n'},
+     'commands': [('track', ['ds/data/a.dat', 'ds/data2/b.dat', 'ds/other.dat'], []),
+                  ('u-rm', ['ds/data', 'ds/data2/b.dat']), ('u-del-line', 'ds/data2', '/b.dat'),
+                  ('recheck', ['ds/data/a.dat', 'ds/data2/b.dat'], False)]},
+    {'files': ['set/a/p.pt', 'set/ab', 'set/a_v2.pt'], 'gitignores': {},
+     'commands': [('track', ['set/a/p.pt', 'set/ab', 'set/a_v2.pt'], ['--recheck-method', 'symlink']),
+                  ('u-rm', ['set/a', 'set/ab', 'set/a_v2.pt']), ('u-del-line', 'set', '/ab'), ('u-del-line', 'set', '/a_v2.pt'),
+                  ('send-bring', ['set/a/p.pt', 'set/ab', 'set/a_v2.pt'], False)]},
+]
+BATCH_STEMS = ['m', 'data', 'a', 'run', 'set1']
+# how the name of another destination relates to the name N of a directory the command creates
+BATCH_RELATIONS = ['file:N.EXT', 'file:N_v2.EXT', 'file:NN', 'dir:N2/', 'dir:N.d/', 'inside', 'unrelated', 'file-is-prefix-of-dir']
+
+
+def gen_batch_spec(rng, chk, k):
+    """ONE materialising command x SEVERAL files: a directory N the command has to create (its files were tracked as explicit files,
+    so there is no `/N/` rule yet) next to 1-3 other destinations whose names relate to N: a sibling FILE whose name starts with N
+    (`N.ext`, `N_v2.ext`, `NN`), a file in an existing sibling DIRECTORY whose name starts with N (`N2/`, `N.d/`), a file really
+    inside N, an unrelated name, a file whose name is a proper prefix of N.  Command: copy of a glob to a directory destination
+    (the tree below `out/` partly there), recheck or send + lost cache + bring after the user lost N and the other files (and the
+    ignore lines of those).  Sources live in a sub-directory S, destinations outside S (same-named anchored lines of an ancestor
+    .gitignore are K12 proper); whole directories are never tracked (their `/S/` line is K12 proper for `out/S/...`)."""
+    S = rng.choice(['src', 'ds', 'exp/raw'])
+    N = rng.choice(BATCH_STEMS)
+    ext = rng.choice(['.bin', '.dat', '.pt'])
+    rels = rng.sample(BATCH_RELATIONS, rng.randint(1, 3))
+    inside = [f'{S}/{N}/x{ext}'] + ([f'{S}/{N}/y{ext}'] if rng.random() < 0.3 else [])
+    others, sibdirs = [], []
+    for r in rels:
+        if r == 'file:N.EXT': others.append(f'{S}/{N}{ext}')
+        elif r == 'file:N_v2.EXT': others.append(f'{S}/{N}_v2{ext}')
+        elif r == 'file:NN': others.append(f'{S}/{N}{N[-1]}')
+        elif r == 'dir:N2/': others.append(f'{S}/{N}2/b{ext}'); sibdirs.append(f'{S}/{N}2')
+        elif r == 'dir:N.d/': others.append(f'{S}/{N}.d/c{ext}'); sibdirs.append(f'{S}/{N}.d')
+        elif r == 'inside': inside.append(f'{S}/{N}/sub/z{ext}')
+        elif r == 'unrelated': others.append(f'{S}/zz{ext}')
+        else: others.append(f'{S}/{N[:-1] or "q"}{ext}' if len(N) > 1 else f'{S}/q{ext}')
+    tracked = inside + others
+    cmd = rng.choice(['copy-many', 'copy-many', 'recheck', 'bring'])
+    m = rng.choice(RECHECK_METHODS)
+    mopts = ['--recheck-method', m] if m else []
+    files = list(tracked)
+    if cmd == 'copy-many':
+        out = rng.choice(['out', 'release/v1'])
+        there = rng.random() < 0.85             # control: nothing below out/ is there (every directory is created, `/S/`-like rules only)
+        if there:
+            files.append(f'{out}/{S}/keep.txt')
+            files += [f'{out}/{d}/keep.txt' for d in sibdirs]
+        cmds = [('track', tracked, []), ('copy-many', S + '/**', out + '/', mopts)]
+    else:
+        topts = ['--recheck-method', rng.choice(['symlink', 'hardlink'])] if rng.random() < 0.3 else []
+        lost = [f'{S}/{N}'] + others
+        cmds = [('track', tracked, topts), ('u-rm', lost)]
+        cmds += [('u-del-line', os.path.dirname(f), '/' + os.path.basename(f)) for f in others if rng.random() < 0.85]
+        cmds.append(('recheck', tracked, False, mopts) if cmd == 'recheck' else ('send-bring', tracked, False))
+    chk.count(f'batch-scenario:{cmd}:' + '+'.join(sorted(rels)))
+    return {'files': files, 'gitignores': {'': '*.log\n'} if rng.random() < 0.3 else {}, 'commands': cmds}
+
+
 FAULT_CORPUS = [
     # the demo: 13 KB of user patterns in the root .gitignore, first.bin tracked, then `track second.bin` under ulimit -f 8
     {'files': ['first.bin', 'second.bin'], 'gitignores': {'': big_user_lines(13300)},
@@ -1190,6 +1291,7 @@ def run(chk: Check):
         'translator lib/ignore_extract.py (GITIGNORE_INITIAL_CONTENT, COMMON_IGNORE_PATTERNS), cross-checked against the compiled constants (stream `const`)',
         'translator lib/c16_extract.py (variants of HashAlgorithm with cache directory and configuration value: Gen/HashAlgorithms.lean, compared with the directories the binary creates under .xvc/)',
         'translator lib/c16_extract.py (the `ignore_writer.send(…)` sites of recheck_from_cache with their enclosing conditions: Gen/IgnoreSends.lean; guards: always / parent directory created / nothing was at the destination (`if !path.exists()` or a `let` of it) / other; a send whose argument is not a literal IgnoreOperation constructor or whose guard is `other` counts as sending nothing)',
+        'translator lib/c16_extract.py (what make_ignore_handler does to the queued files between update_dir_gitignores and update_file_gitignores: Gen/IgnoreSends.lean HANDLER_FILE_FILTER; classes: none / rules reloaded with build_gitignore and checked again / retain-filter with starts_with (components) / with starts_with_str or a text prefix / other = counts as writing no file line)',
         'translator lib/c16_extract.py (how file/src/common/gitignore.rs and xvc init open the ignore files: Gen/GitignoreWrites.lean), cross-checked against the open(2) flags strace observes in one traced session per run and against the fault stream',
         'harness harness/src/bin/walker_harness.rs (`gcheckignore` = build_ignore_patterns(.gitignore)+check, as build_gitignore does), lib/c16.py (generators, canonicalisation of dates and of the HashMap order inside one appended block, oracle), lib/xvcbin.py',
         'modelled, not verified: git itself (dir.c/wildmatch are modelled by gitIgnored over globMatch and compared with the real `git check-ignore --no-index` on every run; `git add -A -n` is the oracle), chrono date text, the POSIX semantics of O_APPEND (WritePrim.lean `WriteKind.after`), HashMap iteration order (irrelevant: one file per group)',
@@ -1328,6 +1430,33 @@ def run(chk: Check):
             chk.samples.append({'stream': 'onto-existing', 'history': log, 'oracle': [m for m, _ in fails] or 'every obliged tracked path ignored by git, every .gitignore append-only'})
     chk.extra['phase_s']['onto-existing'] = round(time.time() - t_phase, 1); t_phase = time.time()
 
+    # ---- ONE command materialises SEVERAL files, new directories whose names are prefixes of other destinations (handler batch semantics)
+    hfilter = (chk.extra.get('translator_handler_filter') or {}).get('filter')
+    directed_b = hfilter not in ('reloadCheck',)
+    n_b = (8 if quick else 60) * (3 if directed_b else 1)
+    if directed_b: chk.notes.append(f'the filter of the queued files in make_ignore_handler is not "reload the rules, check again" ({hfilter}): batch-prefix stream widened to {n_b} histories')
+    pst = chk.tie['streams'].setdefault('batch-prefix', {'cases': 0, 'commands': 0, 'disagreements': 0, 'oracle_failures': 0})
+    bspecs = [dict(x) for x in BATCH_CORPUS] + [gen_batch_spec(rng, chk, j) for j in range(n_b)]
+    for j, spec in enumerate(bspecs):
+        fails, tie, log = scenario(chk, pr, xvc, 8500 + j, rng, forced=spec)
+        pst['cases'] += 1; chk.evaluations += 1
+        pst['commands'] += sum(1 for l in log if 'cmd' in l)
+        chk.nontrivial.add(hashlib.sha1(repr(log).encode()).hexdigest())
+        fails, log = minimise(fails, log, [(m, sg) for m, sg in fails if tuple(sorted(sg.items())) not in seen_sig], f'p{j}')
+        for msg, sig in fails:
+            key = tuple(sorted(sig.items()))
+            if key in seen_sig: continue
+            seen_sig.add(key)
+            pst['oracle_failures'] += 1
+            chk.oracle_failure(msg, {'history': log, 'level': 'binary', 'stream': 'batch-prefix'}, {'all': [m for m, _ in fails]}, signature=sig)
+        if tie:
+            pst['disagreements'] += 1
+            if pst['disagreements'] == 1:
+                chk.disagreement('batch-prefix', log, tie[0][1], tie[0][2], tie[0][0])
+        if j == 0 and len(chk.samples) < 10:
+            chk.samples.append({'stream': 'batch-prefix', 'history': log, 'oracle': [m for m, _ in fails] or 'every obliged tracked path ignored by git, every .gitignore append-only'})
+    chk.extra['phase_s']['batch-prefix'] = round(time.time() - t_phase, 1); t_phase = time.time()
+
     # ---- the append primitive: open flags observed in one traced session, and faults at the .gitignore update
     ost = chk.tie['streams'].setdefault('open-flags', {'cases': 0, 'disagreements': 0})
     of_ = observe_open_flags(chk, xvc)
@@ -1395,6 +1524,9 @@ def run(chk: Check):
         'untracked, controls: recorded and ignored, absent - at a file destination, at the path computed under a directory destination `out/` and with --name-only, by copy --force, recheck --force, '
         'send + lost cache + bring --force (recorded destinations), move (must refuse), with every recheck method (recorded, copy, symlink, hardlink, reflink), optionally once more after the line was '
         'deleted again: same oracle and byte tie; '
+        f'{len(bspecs)} batch-prefix histories (three corpus histories first): ONE command materialises SEVERAL files - `copy \'S/**\' out/` with the tree below out/ partly there, recheck and '
+        'send + lost cache + bring after the user lost a directory N, other files and their ignore lines - into a directory N the command creates and into directories that are there, the other '
+        'destinations named N.ext, N_v2.ext, NN, N2/…, N.d/…, inside N, unrelated, a prefix of N; sources tracked as explicit files, every recheck method: same oracle and byte tie (one created directory); '
         f'{len(fspecs)} fault histories: a LATER command (track file/glob/dir, copy, move, recheck, carry-in) runs under `trap "" XFSZ; ulimit -f 4|8|16` '
         'with a root or sub-directory .gitignore that the user\'s own lines made larger than the limit (or so large that the appended block crosses it), or is killed by strace at its first write(2) to that '
         '.gitignore; oracle: every byte that was in every .gitignore is still there as a prefix, every tracked path git ignored before is still ignored and not staged (the targets of the failed command are '
